@@ -517,7 +517,8 @@ def run(ctx):
     ctx.cov["simulated_histories"] = {"behaviours": len(traces), "max_length": max(len(t) for t in traces) // 2}
     # ---- binding self-test -------------------------------------------------------------------------------
     ctx.cov["binding_selftest"] = _selftest(ctx, unis[0])
-    if not all(ctx.cov["binding_selftest"].values()):
+    fresh = [v for v in ctx.violations if v.signature not in SIG.values()]
+    if not all(ctx.cov["binding_selftest"].values()) and not fresh:      # (with fresh violations the untouched walk may fail too)
         raise core.MachineryError("binding self-test failed: %r" % ctx.cov["binding_selftest"])
     ctx.cov["exhaustive"] = "complete reachable state graphs of the listed universes; every edge executed"
 
